@@ -46,7 +46,7 @@ class C19(F.Check):
     ]
 
     def bounds(self):
-        return {"stored values": "all bit patterns (no bound)", "reps": F.ALL_REPS, "units": [u for _, u in self.units()],
+        return {"stored values": "all bit patterns (no bound)", "reps": F.ALL_REPS + F.TWIN_INT_REPS, "units": [u for _, u in self.units()],
                 "arithmetic target types": ARITH_TYPES, "chrono durations": [d for _, d, _ in DURATIONS] + ["duration<R> per rep"],
                 "unwind": 0}
 
@@ -94,10 +94,12 @@ class C19(F.Check):
             n = add(F.Kernel("c19_" + name, ret, [], body, key=key, family="closed_" + name.split("__")[0]))
             self.closed.append((name.replace("__", ":", 1), n, expected, key))
 
-        for ct in F.ALL_REPS:
+        for ct in F.ALL_REPS + F.TWIN_INT_REPS:
             P = F.promoted(ct)
             z = "static_cast<%s>(0)" % ct
             for ut, _ in self.units():
+                if ct in F.TWIN_INT_REPS and ut != self.units()[0][0]:      # distinct types with int64_t/uint64_t arithmetic: one unit
+                    continue
                 U = "C19_" + ut
                 Q = "Quantity<%s, %s>" % (U, ct)
                 PT = "QuantityPoint<%s, %s>" % (U, ct)
